@@ -400,4 +400,4 @@ def run(ctx: Check, tree: Tree) -> None:
         ctx.ok("R-TOLERATE", where, f"{n_loads} load site(s): every raising path is caught ({interp.ok_counts['tolerated']} handler entries) and continues to a judged return")
     if "R-PUBLISH" not in rules_bad:
         ctx.ok("R-PUBLISH", where, f"final cache file is never opened for writing; {interp.ok_counts['publishes']} path(s) publish by rename from a unique temporary")
-    check_hash_function(ctx, tree)
+    ctx.section(check_hash_function, ctx, tree)
